@@ -18,6 +18,7 @@ pub fn all() -> Vec<Box<dyn Engine>> {
         Box::new(stack::BStackEngine),
         Box::new(maps::HmEngine),
         Box::new(maps::HtEngine),
+        Box::new(maps::HmPlainEngine),
         Box::new(values::ValEngine),
         Box::new(values::TblEngine { limited: false }),
         Box::new(values::TblEngine { limited: true }),
